@@ -15,6 +15,9 @@ Streams
      (mostly ill-formed) payloads - both must accept/reject together and build the same tree.
   C  single strings (every string of length <= 4/5 over 9 symbols, every pair over 23 symbols incl. quotes | { } digits,
      random lines), as one-line and as two-line captions, through all 7 public writers; judged exactly like stream A.
+  E  shared objects and history: ONE CaptionSet object whose languages share their CaptionList / Caption / node objects
+     (or one language), with >= 2 captions of equal (start, end), written by a merging writer first and then twice by all
+     seven writers; every document of the history is judged like stream A (per language).
 Known findings are recognised by the FAILURE (the observed lines equal the authored ones with a blank after every SAMI
 text node / with U+00A0 for every empty WebVTT text node), never by the shape of the input.
 """
@@ -95,6 +98,9 @@ def run_sets(ctx, res, nsets):
     return process_cases(ctx, res, cases)
 
 
+MERGING = ("SRT", "DFXP-legacy", "DFXP-single")      # writers that merge consecutive captions with equal (start, end)
+
+
 def merge_equal(specs, spans):
     """what 'one cue per caption' means for SRT when consecutive captions share (start, end): they may be one cue"""
     out, osp = [], []
@@ -116,10 +122,17 @@ def process_cases(ctx, res, cases):
         fmt, kind, mreq, specs, out = case[:5]
         spans = case[5] if len(case) > 5 else [G.times(i) for i in range(len(specs))]
         exp_specs = specs
-        if fmt == "SRT":
+        if fmt in MERGING:
             exp_specs, _ = merge_equal(specs, spans)
+        # a set with the same captions under several languages: DFXP / MicroDVD write language after language,
+        # SAMI writes the languages of one sync point side by side (stream E)
+        how = case[6] if len(case) > 6 else None
+        if how == "concat":
+            exp_specs = list(exp_specs) + list(exp_specs)
+        elif how == "interleave":
+            exp_specs = [x for e in exp_specs for x in (e, e)]
         rec = {"fmt": fmt, "kind": kind, "specs": specs, "exp_specs": exp_specs, "spans": spans, "out": out,
-               "observed": None, "model": [], "obs_error": None}
+               "observed": None, "model": [], "obs_error": None, "how": how, "hist": case[7] if len(case) > 7 else None}
         records.append(rec)
         for s in exp_specs:
             reqs.append((321, G.wire_nodes(s)))
@@ -145,12 +158,13 @@ def process_cases(ctx, res, cases):
             obs_reqs.append(val)
         mreq = next(w[3] for w in WRITERS if w[0] == rec["fmt"])
         if isinstance(mreq, tuple):
-            for s in rec["specs"]:
+            for s in rec["exp_specs"]:            # legacy / single-positioning DFXP write the merged captions
                 model_reqs.append((301, [mreq[0], mreq[1], G.wire_nodes(s)]))
                 model_slots.append(rec)
         else:
             caps = []
-            for s, (st, en) in zip(rec["specs"], rec["spans"]):
+            twice = 2 if rec["how"] == "concat" else 1
+            for s, (st, en) in list(zip(rec["specs"], rec["spans"])) * twice:
                 tl = {302: G.vtt_timing, 303: G.srt_timing, 304: G.mdvd_prefix}[mreq](st, en)
                 caps.append([tl, G.wire_nodes(s)])
             model_reqs.append((mreq, caps))
@@ -229,6 +243,11 @@ def process_cases(ctx, res, cases):
     shrunk = set()
     for v in viols:
         key = (v["kind"], v["fmt"])
+        if v.get("hist"):
+            v["replay"] = "history"
+            v["all_specs"], v["all_spans"] = v.pop("_all_specs", None), v.pop("_all_spans", None)
+            res["violations"].append(v)
+            continue
         if key not in shrunk and len(shrunk) < 6 and v["kind"] not in ("blank-inserted-at-node-boundary", "nbsp-for-empty-text-node"):
             shrunk.add(key)
             v = shrink(ctx, v)
@@ -241,6 +260,10 @@ def classify(rec, i):
     fmt = rec["fmt"]
     out = rec["out"]
     base = {"fmt": fmt, "replay": "write", "shape": "caption", "document": out.v if isinstance(out, Ok) else None}
+    if rec.get("hist"):
+        base["hist"] = rec["hist"]
+        base["_all_specs"], base["_all_spans"] = rec["specs"], rec["spans"]
+        base["shape"] = "shared-objects-and-history"
     if not isinstance(out, Ok):
         return dict(base, kind="writer-raises", what=f"{fmt} writer raised {impl.ERR_NAMES.get(out.code, out.code)}",
                     input=rec["specs"], spans=rec["spans"])
@@ -459,15 +482,84 @@ def run_strings(ctx, res, maxlen, nrand):
     process_cases(ctx, res, cases)
 
 
+# ---- stream E: shared objects inside one set, and the history of one set object --------------------------------------
+def history_cases(specs, spans, mode, order):
+    """ONE CaptionSet object - mode 'alias-list': the same CaptionList under two languages, 'alias-captions': two lists of
+    the same Caption objects, 'alias-nodes': two caption lists whose captions share their node objects, 'plain': one
+    language - written by the writers named in `order`, one after the other.  Every document is a case of its own."""
+    from pycaption import CaptionSet, CaptionList, Caption
+    caps = [Caption(s, e, G.build_nodes(sp)) for (s, e), sp in zip(spans, specs)]
+    if mode == "alias-list":
+        cl = CaptionList(caps)
+        cs = CaptionSet({"en-US": cl, "fr": cl})
+    elif mode == "alias-captions":
+        cs = CaptionSet({"en-US": CaptionList(caps), "fr": CaptionList(list(caps))})
+    elif mode == "alias-nodes":
+        cs = CaptionSet({"en-US": CaptionList(caps), "fr": CaptionList([Caption(c.start, c.end, list(c.nodes)) for c in caps])})
+    else:
+        cs = CaptionSet({"en-US": CaptionList(caps)})
+    two = mode != "plain"
+    cases = []
+    for step, fmt in enumerate(order):
+        W, kind, mreq = next((w[1], w[2], w[3]) for w in WRITERS if w[0] == fmt)
+        out = impl.call(lambda: W().write(cs))
+        hist = {"mode": mode, "order": list(order), "step": step}
+        if not two or fmt == "WebVTT":                       # WebVTT writes the first language only
+            cases.append((fmt, kind, mreq, specs, out, spans, None, hist))
+        elif fmt == "SRT":
+            # the languages are joined by a 'MULTI-LANGUAGE SRT' line: every part is an SRT document of its own
+            parts = out.v.split("MULTI-LANGUAGE SRT\n") if isinstance(out, Ok) else [None, None]
+            if len(parts) != 2:
+                cases.append((fmt, kind, mreq, specs, out, spans, "concat", hist))     # reported as cue-count / unparseable
+            else:
+                for part in parts:
+                    cases.append((fmt, kind, mreq, specs, Ok(part) if part is not None else out, spans, None, hist))
+        else:
+            cases.append((fmt, kind, mreq, specs, out, spans, "interleave" if fmt == "SAMI" else "concat", hist))
+    return cases
+
+
+def run_histories(ctx, res, n):
+    rng = ctx.rng
+    names = [w[0] for w in WRITERS]
+    cases = []
+    for k in range(n):
+        ncap = rng.randint(2, 4)
+        specs = [G.rand_caption_nodes(rng, adversarial=rng.choice([0.5, 0.8]), styles=rng.choice([0.0, 0.3]), intra=0.1)
+                 for _ in range(ncap)]
+        if rng.random() < 0.5:
+            specs[0] = [("t", rng.choice(["Tom & Jerry", "a<b & c>d", "R&D <3", "&amp; &lt;"]))] + ([("b",)] + specs[0] if rng.random() < 0.5 else [])
+        specs = [sp for sp in specs if not excluded(sp, "MicroDVD")] or [[("t", "Tom & Jerry")], [("t", "x")]]
+        spans = [G.times(i) for i in range(len(specs))]
+        mode = rng.choice(["alias-list", "alias-captions", "alias-nodes", "plain", "plain"])
+        if len(specs) > 1 and (mode == "plain" or rng.random() < 0.3):
+            j = rng.randint(1, len(specs) - 1)
+            spans[j] = spans[j - 1]                         # >= 2 captions with equal (start, end)
+        if mode != "plain" and len(set(spans)) < len(spans):
+            # SAMI puts the second language of equally timed captions into the FIRST sync of that time: no fixed order
+            order_names = [x for x in names if x != "SAMI"]
+            key = "E_sami_skipped_equal_times_two_languages"
+            res["distribution"][key] = res["distribution"].get(key, 0) + 1
+        else:
+            order_names = list(names)
+        first = rng.choice(["DFXP-legacy", "DFXP-single", "SRT"])
+        order = [first] + rng.sample(order_names, len(order_names)) + rng.sample(order_names, len(order_names))
+        res["distribution"]["E_histories_" + mode] = res["distribution"].get("E_histories_" + mode, 0) + 1
+        cases += history_cases(specs, spans, mode, order)
+    res["distribution"]["E_documents"] = len(cases)
+    process_cases(ctx, res, cases)
+
+
 def run(ctx):
     res = {"evaluations": 0, "nontrivial": set(), "violations": [], "disagreements": [], "distribution": {},
-           "streams": 3, "notes": []}
+           "streams": 4, "notes": []}
     records = run_sets(ctx, res, ctx.n(260, 6000))
     payloads = []
     for rec in records:
         payloads.extend(rec.get("payloads") or [])
     run_xml_validation(ctx, res, payloads, ctx.n(1500, 40000))
     run_strings(ctx, res, ctx.n(4, 5), ctx.n(500, 20000))
+    run_histories(ctx, res, ctx.n(60, 1500))
     res["rule"] = ("A: caption sets of 1-4 captions x 7 writers (DFXP, legacy DFXP, single-positioning DFXP, SAMI, WebVTT, "
                    "SRT, MicroDVD); non-trivial = a caption with a metacharacter (& < > quotes | { } \\ / ; # -) or more "
                    "than one line, counted as distinct (writer, authored lines, node shape). B: <p> payloads and mutated "
@@ -497,6 +589,14 @@ def run(ctx):
 
 
 def replay(ctx, rec):
+    if rec.get("replay") == "history":
+        h = rec["hist"]
+        specs = [[tuple(n) for n in s] for s in rec["all_specs"]]
+        spans = [tuple(x) for x in rec["all_spans"]]
+        r = {"evaluations": 0, "nontrivial": set(), "violations": [], "disagreements": [], "distribution": {}, "notes": []}
+        process_cases(ctx, r, history_cases(specs, spans, h["mode"], h["order"]))
+        bad = [v for v in r["violations"] if v["kind"] not in ("blank-inserted-at-node-boundary", "nbsp-for-empty-text-node")]
+        return bool(bad), [(v["fmt"], v["hist"]["step"], v["what"][:200]) for v in bad[:3]]
     if rec.get("replay") == "write":
         specs = [[tuple(n) for n in s] for s in rec["input"]]
         spans = [tuple(x) for x in rec["spans"]] if rec.get("spans") else None
